@@ -1,6 +1,7 @@
 import Driver.Util
 import Driver.C05
 import CCVerif.Model.Parser
+import CCVerif.Model.EntryPoints
 /-! Driver ops for C04.
 
 * `c04 lexpos <syn> <hex>` → `<ranges> err=<p|none> fails=<0|1> inrange=<0|1>`: the ranges `lo:hi` of the
@@ -11,6 +12,15 @@ import CCVerif.Model.Parser
   `lex_error_fails_parse` of Properties/C04.lean to the position bookkeeping of the real lexers.
   Spec: `x x x inrange=1`; with an unknown symbol in the text `x x fails=1 inrange=1`.
   MATH text that is not well-formed UTF-8 is outside the lexer model: model `skip`, the oracle stays.
+* `c04m parse <hint> <hex>` → `<ok|fail> <errors>`: `Parser::Parse(text, hint)` and its log (`ErrorLogger::All()`, in the
+  order of logging, `eid@pos` with hex eid, `-` = empty); model = `Entry.parseEntry` (lexer model + the bison automaton of
+  `Generated/Lalr.lean` + the recursive-descent tree); `skip` outside the lexer model (MATH, ill-formed UTF-8).
+  Spec (the property itself, evaluated on the implementation's line): `ok -` or `fail x`.
+* `c04m audit <hint> <hex>` → `t=<ok|fail> e=<errors> v=<ok|fail|-> ve=<errors|->`: `Auditor::CheckType(text, hint)`, then
+  `CheckValue()` when the first call succeeded; model = `Entry.checkEntry` in the context exported by the harness as
+  `c03 reset / traits / ctx / vc / ast` lines (state `c03` of the driver).
+* `c04m eval <hint> <hex>` → `<ok|fail> <errors>`: `Interpreter::Evaluate(text, hint)`; model = `Entry.evalEntry` where it does
+  not depend on the data context (empty text, parse failure, type error), `skip` otherwise.
 * every other op is a verdict computed by the harness on the implementation (fault observation,
   faithfulness of failure reporting, positions in range); the property demands `1`. -/
 namespace Driver.C04
@@ -56,4 +66,49 @@ def handle (args : List String) : String :=
     | some syn => lexpos syn h
     | none => "bad-op\tn/a"
   | _ => "skip\t1"
+
+/-! ## the composed entry points (`c04m`) -/
+open CCVerif.Entry in
+def showErrs (l : List (Nat × Int)) : String :=
+  if l.isEmpty then "-" else joinWith "," (l.map fun e => s!"{String.ofList (Nat.toDigits 16 e.1)}@{e.2}")
+
+open CCVerif.Entry in
+def showStatus : Status → String
+  | .ok => "ok" | .failed => "fail" | .gap why => "gap:" ++ why.replace " " "_"
+
+def hintOf (s : String) : Option (Option Syn) :=
+  if s == "0" then some none else if s == "1" then some (some .math) else if s == "2" then some (some .ascii) else none
+
+open CCVerif.Entry in
+def handleM (Γ : CCVerif.Types.Ctx) (args : List String) : String :=
+  match args with
+  | ["parse", h, hexs] =>
+    match hintOf h with
+    | none => "bad-op\tn/a"
+    | some hint =>
+      match parseEntry hint (parseHex hexs) with
+      | none => "skip\tx x"
+      | some r => s!"{showStatus r.status} {showErrs r.errors}\tx x"
+  | ["audit", h, hexs] =>
+    match hintOf h with
+    | none => "bad-op\tn/a"
+    | some hint =>
+      match checkEntry Γ hint (parseHex hexs) with
+      | none => "skip\tx x x x"
+      | some r =>
+        let v := match r.vstatus with
+          | some st => s!"v={showStatus st} ve={showErrs r.verrors}"
+          | none => "v=- ve=-"
+        s!"t={showStatus r.status} e={showErrs r.errors} {v}\tx x x x"
+  | ["eval", h, hexs] =>
+    -- `Interpreter::Evaluate`: decided by the model without the data context when the text is empty, does not parse or does
+    -- not pass the type check (`evalEntry` does not depend on `env` / `fuel` there); otherwise `skip` (C01 / C02 tie the calculation)
+    match hintOf h with
+    | none => "bad-op\tn/a"
+    | some hint =>
+      match evalEntry Γ {} 0 hint (parseHex hexs), checkEntry Γ hint (parseHex hexs) with
+      | some r, some c => if c.status == .ok then "skip\tx x" else s!"{showStatus r.status} {showErrs r.errors}\tx x"
+      | some r, none => s!"{showStatus r.status} {showErrs r.errors}\tx x"
+      | none, _ => "skip\tx x"
+  | _ => "bad-op\tn/a"
 end Driver.C04
